@@ -129,7 +129,17 @@ def cloneHandler (c : Ctx) (m : TraitMeta) : Res (List Item) := do
   let preds := boundPreds ta.bound d.generics (if useCopy then "::core::marker::Copy" else "::core::clone::Clone") types []
   let cfg := vs.map fun (v, fas) => (v.name, v.shape, ([] : List String), fas.map fun (f, a) => [fname f, showOpt a.method])
   let head := [showBool useCopy]
-  pure (withCompanion { trait := "Clone", preds := preds, head := head, variants := cfg } (some (.copy, "Copy")) c.traits)
+  -- The `Copy` impl shares the `Clone` header; when a custom method keeps `Clone` from being a bitwise copy
+  -- (enums only) it additionally asks every field type (automatic mode) / every type parameter (`bound(*)`) to be `Copy`.
+  let copyExtra : List String :=
+    if hasCopy && !useCopy then
+      match ta.bound with
+      | .auto => boundPreds .auto d.generics "::core::marker::Copy" (d.variants.flatMap fun v => v.fields.map (·.ty)) []
+      | .all => boundPreds .all d.generics "::core::marker::Copy" [] []
+      | _ => []
+    else []
+  let primary : Item := { trait := "Clone", preds := preds, head := head, variants := cfg }
+  pure (if hasCopy then [primary, { primary with trait := "Copy", preds := preds ++ copyExtra }] else [primary])
 
 /-! ### Ord / PartialOrd -/
 
